@@ -134,12 +134,14 @@ def run_case(ctx, col, case):
                 oo = tuple(cur)
                 # build the request twice from the same random stream
                 state = rng.getstate()
-                na, aa, kwa, meta = gen.shape_request(rng, oo, a_rel, scale=scale, grid=64)
+                na, aa, kwa, meta = gen.shape_request(rng, oo, a_rel, scale=scale, grid=64, param_offset=True)
                 rng.setstate(state)
-                nb, ab, kwb, _ = gen.shape_request(rng, oo, b_rel, scale=scale, grid=64)
+                nb, ab, kwb, _ = gen.shape_request(rng, oo, b_rel, scale=scale, grid=64, param_offset=True)
                 kind = meta["kind"]
-                if kind == "parametric":
-                    continue   # the function itself is absolute; covered by C01/C10
+                if kind == "parametric" and meta.get("starts_elsewhere"):
+                    # the function is in absolute coordinates in either mode and need not start at the
+                    # current position: both builders must visit the same machine positions
+                    col.count("parametric_not_starting_at_the_tool")
                 keys.add(("shape", start_class, sign, kind))
                 col.count("shape_steps")
                 col.count("shape:" + kind)
@@ -151,6 +153,8 @@ def run_case(ctx, col, case):
                     return True   # position after a partially traced path is not defined by the request
                 if kind == "circle":
                     pass
+                elif kind == "parametric":
+                    cur[:] = list(meta["target_abs"])
                 elif "points_abs" in meta:
                     cur[:] = list(meta["points_abs"][-1])
                 else:
